@@ -342,6 +342,32 @@ func C16(c *core.Ctx) {
 				r2, _ := core.CallArgs(c2.Common())
 				return core.Same(r2, recv)
 			}
+			// a helper that hands the lock to its caller together with the matching
+			// release function ("defer t.locked()()"): every caller must call or defer
+			// what it returns
+			if core.AcquireSummary(fn) != nil && returnsRelease(fn, want, recv) {
+				okUse := true
+				nUse := 0
+				for _, cs := range p.Callers(fn) {
+					nUse++
+					v := cs.Value()
+					used := false
+					if v != nil {
+						for _, r := range core.Refs(v) {
+							if ci, ok := r.(ssa.CallInstruction); ok && ci.Common().Value == ssa.Value(v) {
+								if _, isGo := r.(*ssa.Go); !isGo {
+									used = true
+								}
+							}
+						}
+					}
+					if !used {
+						okUse = false
+					}
+				}
+				c.Decide(okUse && nUse > 0, "R16.3", fmt.Sprintf("lock-released:%s:%s", core.FuncName(fn), id.Name), c.Pos(in), "the lock is handed to the caller with its release function, which every caller calls or defers", core.FuncName(fn)+" returns with the table lock held and a caller drops the release function it returns: every later operation on the table deadlocks")
+				return
+			}
 			// explicit release on all paths, or a deferred release registered on all paths
 			okRel := core.MustFollowDeep(fn, core.After(in), isRel, nil).OK
 			if !okRel {
@@ -455,4 +481,31 @@ func c16StructLocks(t string) []string {
 	}
 	sort.Strings(ks)
 	return c16Guards[ks[0]]
+}
+
+// returnsRelease: every return of fn yields the bound method `want` (Unlock / RUnlock)
+// of the mutex recv.
+func returnsRelease(fn *ssa.Function, want string, recv ssa.Value) bool {
+	n, ok := 0, true
+	core.Instrs(fn, func(in ssa.Instruction) {
+		r, isR := in.(*ssa.Return)
+		if !isR || in.Block() == fn.Recover {
+			return
+		}
+		n++
+		if len(r.Results) != 1 {
+			ok = false
+			return
+		}
+		mc, isMC := core.Strip(r.Results[0]).(*ssa.MakeClosure)
+		if !isMC || len(mc.Bindings) != 1 || !core.Same(mc.Bindings[0], recv) {
+			ok = false
+			return
+		}
+		f := mc.Fn.(*ssa.Function)
+		if !strings.HasPrefix(f.Synthetic, "bound method wrapper") || !strings.Contains(f.Name(), want) {
+			ok = false
+		}
+	})
+	return ok && n > 0
 }
